@@ -17,6 +17,7 @@ package fasthttp
 //@   ghost declared bool = false
 //@   ghost declaredRight bool = false
 //@   ghost vary bool = false
+//@   ghost buffered bool = false
 //@   on call ResponseHeader.ContentEncoding -> e:
 //@     nohavoc
 //@     effect had = len(e)
@@ -33,7 +34,7 @@ package fasthttp
 //@   on call AppendGzipBytesLevel -> out:
 //@     nohavoc
 //@     requires[not-compressed-twice] had == 0
-//@     effect compressed = compressed + 1
+//@     effect compressed = compressed + 1; buffered = true
 //@   on call ResponseHeader.SetContentEncodingBytes(_, enc):
 //@     nohavoc
 //@     requires[declares-what-it-did] compressed == 1
@@ -45,6 +46,7 @@ package fasthttp
 //@   ensures[at-most-once] compressed <= 1
 //@   ensures[encoding-declared-iff-compressed] declared == (compressed == 1) && (declared ==> declaredRight)
 //@   ensures[vary-when-compressed] compressed == 1 ==> vary
+//@   ensures[compressed-bytes-become-the-body] buffered ==> rgn(resp.bodyRaw) == 0 && len(resp.bodyRaw) == 0 && resp.body != nil
 
 //@ func Response.deflateBody
 //@   property C22
@@ -54,6 +56,7 @@ package fasthttp
 //@   ghost declared bool = false
 //@   ghost declaredRight bool = false
 //@   ghost vary bool = false
+//@   ghost buffered bool = false
 //@   on call ResponseHeader.ContentEncoding -> e:
 //@     nohavoc
 //@     effect had = len(e)
@@ -70,7 +73,7 @@ package fasthttp
 //@   on call AppendDeflateBytesLevel -> out:
 //@     nohavoc
 //@     requires[not-compressed-twice] had == 0
-//@     effect compressed = compressed + 1
+//@     effect compressed = compressed + 1; buffered = true
 //@   on call ResponseHeader.SetContentEncodingBytes(_, enc):
 //@     nohavoc
 //@     requires[declares-what-it-did] compressed == 1
@@ -82,6 +85,7 @@ package fasthttp
 //@   ensures[at-most-once] compressed <= 1
 //@   ensures[encoding-declared-iff-compressed] declared == (compressed == 1) && (declared ==> declaredRight)
 //@   ensures[vary-when-compressed] compressed == 1 ==> vary
+//@   ensures[compressed-bytes-become-the-body] buffered ==> rgn(resp.bodyRaw) == 0 && len(resp.bodyRaw) == 0 && resp.body != nil
 
 //@ func Response.brotliBody
 //@   property C22
@@ -91,6 +95,7 @@ package fasthttp
 //@   ghost declared bool = false
 //@   ghost declaredRight bool = false
 //@   ghost vary bool = false
+//@   ghost buffered bool = false
 //@   on call ResponseHeader.ContentEncoding -> e:
 //@     nohavoc
 //@     effect had = len(e)
@@ -107,7 +112,7 @@ package fasthttp
 //@   on call AppendBrotliBytesLevel -> out:
 //@     nohavoc
 //@     requires[not-compressed-twice] had == 0
-//@     effect compressed = compressed + 1
+//@     effect compressed = compressed + 1; buffered = true
 //@   on call ResponseHeader.SetContentEncodingBytes(_, enc):
 //@     nohavoc
 //@     requires[declares-what-it-did] compressed == 1
@@ -119,6 +124,7 @@ package fasthttp
 //@   ensures[at-most-once] compressed <= 1
 //@   ensures[encoding-declared-iff-compressed] declared == (compressed == 1) && (declared ==> declaredRight)
 //@   ensures[vary-when-compressed] compressed == 1 ==> vary
+//@   ensures[compressed-bytes-become-the-body] buffered ==> rgn(resp.bodyRaw) == 0 && len(resp.bodyRaw) == 0 && resp.body != nil
 
 //@ func Response.zstdBody
 //@   property C22
@@ -128,6 +134,7 @@ package fasthttp
 //@   ghost declared bool = false
 //@   ghost declaredRight bool = false
 //@   ghost vary bool = false
+//@   ghost buffered bool = false
 //@   on call ResponseHeader.ContentEncoding -> e:
 //@     nohavoc
 //@     effect had = len(e)
@@ -144,7 +151,7 @@ package fasthttp
 //@   on call AppendZstdBytesLevel -> out:
 //@     nohavoc
 //@     requires[not-compressed-twice] had == 0
-//@     effect compressed = compressed + 1
+//@     effect compressed = compressed + 1; buffered = true
 //@   on call ResponseHeader.SetContentEncodingBytes(_, enc):
 //@     nohavoc
 //@     requires[declares-what-it-did] compressed == 1
@@ -156,6 +163,7 @@ package fasthttp
 //@   ensures[at-most-once] compressed <= 1
 //@   ensures[encoding-declared-iff-compressed] declared == (compressed == 1) && (declared ==> declaredRight)
 //@   ensures[vary-when-compressed] compressed == 1 ==> vary
+//@   ensures[compressed-bytes-become-the-body] buffered ==> rgn(resp.bodyRaw) == 0 && len(resp.bodyRaw) == 0 && resp.body != nil
 
 // The wrappers: an encoding is applied only after the request was asked whether it accepts that encoding and said yes.
 //@ func CompressHandlerLevel$1
